@@ -20,6 +20,19 @@ def evaluate(hist: dict) -> dict:
     got = proc.fork_call(engine.child_history, hist)
     ref = proc.fork_call(engine.child_reference, hist, timeout=120)
     v = engine.compare(hist, got, ref)
+    xcheck = {}
+    if hist.get("xcheck"):
+        # reference cross-checks: the cold result must be a function of the final configuration
+        # (net replay) and must not depend on the zygote (a brand-new interpreter)
+        obs_idx = [i for i, op in enumerate(hist["ops"]) if op[0] == "obs"]
+        if obs_idx:
+            want = engine._strip(ref[str(obs_idx[-1])])
+            if "net" in hist["xcheck"]:
+                r = proc.fork_call(engine.child_final_only, engine.net_history(hist))
+                xcheck["net"] = engine._strip(r) == want
+            if "fresh" in hist["xcheck"]:
+                r = engine.subprocess_final(hist)
+                xcheck["fresh"] = engine._strip(r) == want
     allp, sens = engine.opportunities(hist, ref)
     n_obs = sum(1 for op in hist["ops"] if op[0] == "obs")
     fired = sum(1 for r in got if r and r[-1] == "fault-fired")
@@ -29,6 +42,7 @@ def evaluate(hist: dict) -> dict:
     rd = hashlib.blake2b(json.dumps([got, ref], sort_keys=True).encode(), digest_size=8).hexdigest()
     return {
         "violation": v,
+        "xcheck": xcheck,
         "n_ops": len(hist["ops"]),
         "n_obs": n_obs,
         "n_cfg": len(hist["ops"]) - n_obs,
@@ -49,6 +63,11 @@ def fingerprint(r: dict) -> list:
 
 def handler(task: dict) -> dict:
     hist = engine.make_history(task["index"], task["seed"], task["tier"], task.get("batch", 0))
+    if task["tier"] == "thorough" and hist.get("block") == "R" and not hist.get("fault"):
+        if task["seed"] % 50 == 0:
+            hist["xcheck"] = ["fresh", "net"]
+        elif task["seed"] % 10 == 1:
+            hist["xcheck"] = ["net"]
     out = evaluate(hist)
     out["index"] = task["index"]
     out["seed"] = task["seed"]
@@ -177,6 +196,7 @@ class Agg:
         self.obs_raising = 0
         self.samples = []
         self.harness_errors: List[str] = []
+        self.xchecks: Dict[str, int] = {}
         self.maxlen = 0
 
     def add(self, r: dict):
@@ -193,6 +213,10 @@ class Agg:
         if r["fault"]:
             self.fault_armed += 1
             self.fault_fired += 1 if r["fault_fired"] else 0
+        for k, ok in r.get("xcheck", {}).items():
+            self.xchecks[k] = self.xchecks.get(k, 0) + 1
+            if not ok:
+                self.harness_errors.append("reference cross-check %s disagrees at history %d" % (k, r["index"]))
         self.cfg_failed += r["cfg_failed"]
         self.obs_raising += r["obs_raising"]
         self.maxlen = max(self.maxlen, r["n_ops"])
@@ -241,6 +265,9 @@ class Agg:
                 "cache_size_knob": "cache.set_size.{1,2,8,128} are operations of the alphabet",
             },
             "observations_raising_cold": self.obs_raising,
+            "reference_cross_checks": {"net_replay_of_settings": self.xchecks.get("net", 0),
+                                       "brand_new_interpreter": self.xchecks.get("fresh", 0),
+                                       "note": "thorough tier only; a disagreement is a harness error, not a verdict"},
             "components": {
                 "real": ["apischema (all of it, from the working tree)", "functools.lru_cache", "fork()ed cold reference"],
                 "stub": ["probe classes, converters, validators, aliasers (dst/c09/pool.py)"],
